@@ -60,7 +60,7 @@ func (po *PipelineOrchestrator) Update(ctx context.Context, id string, cfg pipel
 		return nil, immutableProvisionedByConfigErr(fmt.Sprintf("pipeline %q cannot be updated", pl.ID))
 	}
 	// TODO lock pipeline
-	if pl.GetStatus() == pipeline.StatusRunning {
+	if isLive(pl) {
 		// Invariant: errors.Is(err, ErrPipelineRunning) still holds — sentinel
 		// wrapped, ConduitError adds the code.
 		return nil, pipelineRunningErr(pipeline.ErrPipelineRunning.Error())
@@ -79,7 +79,7 @@ func (po *PipelineOrchestrator) Delete(ctx context.Context, id string) error {
 		// sentinel wrapped, ConduitError adds the code.
 		return immutableProvisionedByConfigErr(fmt.Sprintf("pipeline %q cannot be deleted", pl.ID))
 	}
-	if pl.GetStatus() == pipeline.StatusRunning {
+	if isLive(pl) {
 		// Invariant: errors.Is(err, ErrPipelineRunning) still holds — sentinel
 		// wrapped, ConduitError adds the code.
 		return pipelineRunningErr(pipeline.ErrPipelineRunning.Error())
@@ -113,7 +113,7 @@ func (po *PipelineOrchestrator) UpdateDLQ(ctx context.Context, id string, dlq pi
 		return nil, immutableProvisionedByConfigErr(fmt.Sprintf("pipeline %q cannot be updated", pl.ID))
 	}
 	// TODO lock pipeline
-	if pl.GetStatus() == pipeline.StatusRunning {
+	if isLive(pl) {
 		// Invariant: errors.Is(err, ErrPipelineRunning) still holds — sentinel
 		// wrapped, ConduitError adds the code.
 		return nil, pipelineRunningErr(pipeline.ErrPipelineRunning.Error())
